@@ -385,7 +385,8 @@ fn fuzz_campaign(root: &std::path::Path, target: &str, runs: u64, max_len: u32, 
             .current_dir(&work)
             .env("VERIF_SCRATCH", &work)
             .stdout(Stdio::null())
-            .stderr(Stdio::piped());
+            // libFuzzer is chatty: a pipe nobody drains would stall the process
+            .stderr(std::fs::File::create(work.join(format!("log{}", i))).map(Stdio::from).unwrap_or_else(|_| Stdio::null()));
         let dict = fuzz_dir.join("seeds").join(format!("{}.dict", target));
         if dict.exists() {
             cmd.arg(format!("-dict={}", dict.to_string_lossy()));
@@ -397,9 +398,10 @@ fn fuzz_campaign(root: &std::path::Path, target: &str, runs: u64, max_len: u32, 
     let mut execs = 0u64;
     let mut corpus_units = 0u64;
     for (i, c, art) in children {
-        let out = c.wait_with_output();
-        if let Ok(out) = out {
-            let err = String::from_utf8_lossy(&out.stderr);
+        let mut c = c;
+        let out = c.wait();
+        if out.is_ok() {
+            let err = std::fs::read_to_string(work.join(format!("log{}", i))).unwrap_or_default();
             for l in err.lines() {
                 if let Some(v) = l.strip_prefix("stat::number_of_executed_units:") {
                     execs += v.trim().parse::<u64>().unwrap_or(0);
